@@ -49,7 +49,58 @@ func matchAny(pats []string, atoms []string) (string, bool) {
 			}
 		}
 	}
+	// an implication "when: G1 && G2 => C" is also established where C holds outright, or where one of
+	// the guards is known false (the same code written with an early return instead of a nested if)
+	for _, p := range pats {
+		if !strings.HasPrefix(p, "when: ") {
+			continue
+		}
+		i := strings.Index(p, " => ")
+		if i < 0 {
+			continue
+		}
+		guards, concl := strings.Split(p[len("when: "):i], " && "), p[i+4:]
+		for _, a := range atoms {
+			if glob(concl, a) {
+				return a, true
+			}
+			for _, g := range guards {
+				for _, ng := range negations(g) {
+					if glob(ng, a) {
+						return a + "   (guard " + g + " is false here)", true
+					}
+				}
+			}
+		}
+	}
 	return "", false
+}
+
+// negations lists atom forms that contradict g.
+func negations(g string) []string {
+	g = strings.TrimSpace(g)
+	if strings.HasPrefix(g, "!") {
+		return []string{g[1:]}
+	}
+	for _, op := range []struct{ op, neg string }{{" == ", " != "}, {" != ", " == "}} {
+		if i := strings.Index(g, op.op); i > 0 {
+			a, b := g[:i], g[i+len(op.op):]
+			return []string{a + op.neg + b, b + op.neg + a}
+		}
+	}
+	if i := strings.Index(g, " <= "); i > 0 {
+		a, b := g[:i], g[i+4:]
+		return []string{b + " < " + a}
+	}
+	if i := strings.Index(g, " < "); i > 0 {
+		a, b := g[:i], g[i+3:]
+		out := []string{b + " <= " + a}
+		if a == "0" {
+			out = append(out, b+" == 0", "0 == "+b)
+		}
+		return out
+	}
+	return []string{"!" + g}
 }
 
 // fn resolves an anchor or records an anchor-unresolved violation (fail closed).
